@@ -371,6 +371,8 @@ def find_raise_clause(con: Contract, exc_cls, it):
 def end_return(it: Interp, con: Contract, env, result, name):
     env2 = dict(env)
     env2['result'] = result if not isinstance(result, Box) else it.freeze(result)
+    for c in con.post_hints:
+        it.eval_clause(c.node, c.globs, it.clause_env(c, env2))
     # exceptional conditions that did not fire
     for ename, c in con.raises.items():
         mode = con.raise_mode.get(ename, 'iff')
